@@ -152,6 +152,23 @@ var cfgs = []cfgSpec{
 	{tls.VersionTLS11, 0x000a, "rsa", 0, false},
 	{tls.VersionTLS12, 0xc02c, "ecdsa384", 0, false},
 	{tls.VersionTLS12, 0x0067, "rsa", 0, true},
+	// every record-protection class (stream, CBC with implicit / explicit IV over 8- and 16-byte blocks and both MAC
+	// sizes, AEAD with explicit / implicit nonce) and the finite-field DHE key exchange at every version; indices are
+	// append-only (replay lines name them)
+	{tls.VersionTLS10, 0x0005, "rsa", 0, false},                              // 16 RC4
+	{tls.VersionTLS12, 0xc011, "rsa", 0, false},                              // 17 ECDHE RC4
+	{tls.VersionTLS10, 0x002f, "rsa", 0, false},                              // 18 AES-CBC implicit IV
+	{tls.VersionTLS11, 0x002f, "rsa", 0, false},                              // 19 AES-CBC explicit IV
+	{tls.VersionTLS12, 0x003c, "rsa", 0, false},                              // 20 AES-CBC-SHA256
+	{tls.VersionTLS12, 0x0016, "rsa", 0, false},                              // 21 DHE 3DES explicit IV
+	{tls.VersionTLS12, 0x0039, "rsa", 0, false},                              // 22 DHE AES256-CBC-SHA
+	{tls.VersionTLS12, 0xccaa, "rsa", 0, false},                              // 23 DHE ChaCha20
+	{tls.VersionTLS12, 0xcca8, "rsa", 0, false},                              // 24 ECDHE ChaCha20
+	{tls.VersionTLS12, 0x009f, "rsa", 0, false},                              // 25 DHE AES256-GCM-SHA384
+	{tls.VersionTLS12, 0x009d, "rsa", 0, false},                              // 26 RSA AES256-GCM
+	{tls.VersionTLS11, 0x0033, "rsa", 0, false},                              // 27 DHE TLS 1.1
+	{tls.VersionTLS12, 0x006b, "rsa", tls.RequireAndVerifyClientCert, false}, // 28 DHE + client certificate
+	{tls.VersionTLS10, 0x000a, "rsa", 0, false},                              // 29 3DES implicit IV
 }
 
 func mkConfigs(c cfgSpec) (*tls.Config, *tls.Config) {
@@ -204,13 +221,50 @@ func safely(wg *sync.WaitGroup, panics chan<- string, name string, f func()) {
 	}()
 }
 
+// wfilter is a fault-injecting transport wrapper (write side) that counts the bytes its endpoint wrote.
+type wfilter interface {
+	net.Conn
+	Total() int
+}
+
+func (f *posFilter) Total() int { f.mu.Lock(); defer f.mu.Unlock(); return f.total }
+
 // runMITM performs one real handshake + a short data exchange through a corrupting transport.
 // dir: "c2s" corrupts what the client writes, "s2c" what the server writes.
 func runMITM(c cfgSpec, dir, kind string, pos int, val byte, hsTimeout time.Duration) *mitmResult {
+	return runFiltered(c, func(side string, n net.Conn, closeBoth func()) wfilter {
+		f := &posFilter{Conn: n, kind: "none", closeFn: closeBoth}
+		if dir == side {
+			f.kind, f.pos, f.val = kind, pos, val
+		}
+		return f
+	}, hsTimeout)
+}
+
+// runForge is runMITM with the record-aware middlebox (structured forgeries) in direction dir; the other direction
+// is logged only. It also returns the two filters (records / handshake messages seen).
+func runForge(c cfgSpec, dir string, op *forgeOp, hsTimeout time.Duration) (*mitmResult, *recFilter, *recFilter) {
+	var fc, fs *recFilter
+	res := runFiltered(c, func(side string, n net.Conn, closeBoth func()) wfilter {
+		f := &recFilter{Conn: n, ctx: ctxOf(c)}
+		if dir == side {
+			f.op = op
+		}
+		if side == "c2s" {
+			fc = f
+		} else {
+			fs = f
+		}
+		return f
+	}, hsTimeout)
+	return res, fc, fs
+}
+
+func runFiltered(c cfgSpec, mk func(side string, n net.Conn, closeBoth func()) wfilter, hsTimeout time.Duration) *mitmResult {
 	ccfg, scfg := mkConfigs(c)
 	res := &mitmResult{}
 	var rawC, rawS net.Conn
-	var fc, fs *posFilter
+	var fc, fs wfilter
 	closeBoth := func() {
 		if rawC != nil {
 			rawC.Close()
@@ -222,18 +276,12 @@ func runMITM(c cfgSpec, dir, kind string, pos int, val byte, hsTimeout time.Dura
 	opts := tlsrig.Opts{KeepOpen: true, Timeout: hsTimeout}
 	opts.WrapClient = func(n net.Conn) net.Conn {
 		rawC = n
-		fc = &posFilter{Conn: n, kind: "none", closeFn: closeBoth}
-		if dir == "c2s" {
-			fc.kind, fc.pos, fc.val = kind, pos, val
-		}
+		fc = mk("c2s", n, closeBoth)
 		return fc
 	}
 	opts.WrapServer = func(n net.Conn) net.Conn {
 		rawS = n
-		fs = &posFilter{Conn: n, kind: "none", closeFn: closeBoth}
-		if dir == "s2c" {
-			fs.kind, fs.pos, fs.val = kind, pos, val
-		}
+		fs = mk("s2c", n, closeBoth)
 		return fs
 	}
 	r := tlsrig.Handshake(ccfg, scfg, opts)
@@ -325,10 +373,10 @@ func runMITM(c cfgSpec, dir, kind string, pos int, val byte, hsTimeout time.Dura
 		res.viol = append(res.viol, p)
 	}
 	if fc != nil {
-		res.lenC2S = fc.total
+		res.lenC2S = fc.Total()
 	}
 	if fs != nil {
-		res.lenS2C = fs.total
+		res.lenS2C = fs.Total()
 	}
 	res.c2s, res.s2c = r.ClientOut, r.ClientIn
 	return res
